@@ -48,7 +48,7 @@ COMPONENTS = {
                   "file objects (SimFile)", "evaluation failures (EvalPoint)", "process / PYTHONHASHSEED (fresh interpreters)"],
     "stubbed": [],
 }
-EXPECTED_PROBES = ["evaluation-fails-inside-library-code", "build-drop-churn", "structured-boundary-pattern", "python-api-model-in-pool", "burst-of-evaluations-on-one-multi-range-function", "identical-form-text-other-helper-in-pool", "eval-exactly-at-range-boundary", "switch-inside-write", "two-tasks-same-handle", "write-after-faulted-write", "excel-write-across-clock-jump",
+EXPECTED_PROBES = ["same-writer-different-species-counts", "evaluation-fails-inside-library-code", "build-drop-churn", "structured-boundary-pattern", "python-api-model-in-pool", "burst-of-evaluations-on-one-multi-range-function", "identical-form-text-other-helper-in-pool", "eval-exactly-at-range-boundary", "switch-inside-write", "two-tasks-same-handle", "write-after-faulted-write", "excel-write-across-clock-jump",
                    "backwards-clock-jump", "hashseed-comparison", "underspecified-eam-under-hashseeds", "shared-subform-different-args",
                    "same-form-name-different-formula-in-pool", "rebuild-same-model", "write-twice-same-handle", "eval-between-rows-of-own-write"]
 
@@ -227,8 +227,10 @@ def _perturb_numbers(rng, d):
     return " ".join(out)
 
 
-def gen_scenario(seed, tier="quick"):
+def gen_scenario(seed, tier="quick", mode=None):
     rng = random.Random(seed)
+    if mode == "same-writer":
+        return gen_same_writer_scenario(rng, seed, tier)
     hs_run = rng.random() < 0.15
     opts = {"nr_max": 12, "nrho_max": 6, "max_species": 4, "forms_prob": 0.8, "tables_prob": 0.3, "species_override_prob": 0.35,
             # some functions fail by themselves beyond a separation inside the grid: a failed evaluation *inside* the
@@ -413,6 +415,29 @@ def gen_scenario(seed, tier="quick"):
             hs.add(rng.choice(pool))
         sc["hashseeds"] = sorted(hs)
     return sc
+
+
+def gen_same_writer_scenario(rng, seed, tier):
+    """Additional scenarios (appended to the job list, so the ordinary ones keep their random streams): two or
+    three independent models for the SAME EAM-family writer with different numbers of species, built and written
+    one after another in one task - state kept per writer (module-level defaults, class attributes) collides here."""
+    target = rng.choice(mg.EAM_TARGETS + mg.FS_TARGETS + mg.ADP_TARGETS)
+    counts = rng.sample([1, 2, 3, 4], rng.choice([2, 3]))
+    models = []
+    for n in counts:
+        models.append(mg.gen_model(rng, {"targets": [target], "nr_max": 10, "nrho_max": 5, "min_species": n, "max_species": n,
+                                         "underspecified_prob": 0.0, "forms_prob": 0.3, "tables_prob": 0.0}))
+    order = list(range(len(models)))
+    rng.shuffle(order)
+    ops = []
+    for i, m in enumerate(order):
+        ops.append({"op": "build", "h": "t0h%d" % i, "m": m})
+        ops.append({"op": "write", "h": "t0h%d" % i})
+    if rng.random() < 0.5:
+        ops.append({"op": "write", "h": "t0h0"})
+    return {"property": PROP, "seed": seed, "tier": tier, "potsim": 1, "models": models, "model_tags": ["same-writer"] * len(models),
+            "switch_prob": 0.0, "schedule": None, "sched_seed": rng.randrange(1 << 30), "fp_kind": "simfile",
+            "clock_start": 1700000000.0 + rng.randrange(0, 86400 * 365), "shared": [], "tasks": [ops], "hashseeds": None}
 
 
 # ----------------------------------------------------------------------------------------------
@@ -916,7 +941,7 @@ def run_job(job):
 
     for sub in range(job.get("per_job", 4)):
         s = mix64(seed, "sub", sub) & 0x7FFFFFFFFFFF
-        sc = gen_scenario(s, tier)
+        sc = gen_scenario(s, tier, mode=job.get("mode"))
         refs, res, v, extra = run_scenario(sc, scratch)
         st["runs"] += 1 + len(refs) + extra.get("hashseed_processes", 0)
         bump("scenarios")
@@ -1036,6 +1061,8 @@ def _probes(sc, refs, res, extra, bump):
                 break
         if any(o["op"] == "eval" and o.get("own") and o.get("ri") == 0 and o.get("off") == 0.0 and "fl" in o for o in ops):
             bump("probe:structured-boundary-pattern")
+    if "same-writer" in sc.get("model_tags", []):
+        bump("probe:same-writer-different-species-counts")
     if "other-helper" in sc.get("model_tags", []):
         bump("probe:identical-form-text-other-helper-in-pool")
     if any(op.get("own") and op.get("eps") == 0.0 for ops in sc["tasks"] for op in ops if op["op"] == "eval"):
@@ -1051,8 +1078,12 @@ def jobs(seed, tier, n=None):
     from .core import run_seed
     total = n or (QUICK_JOBS if tier == "quick" else THOROUGH_JOBS)
     per = 4
-    for i in range((total + per - 1) // per):
+    n_jobs = (total + per - 1) // per
+    for i in range(n_jobs):
         yield {"seed": run_seed(seed, PROP, i), "tier": tier, "index": i, "per_job": per}
+    # additional same-writer scenarios (10 % on top), appended so that the ordinary scenarios are unchanged
+    for i in range(max(2, n_jobs // 10)):
+        yield {"seed": run_seed(seed, PROP + "/same-writer", i), "tier": tier, "index": n_jobs + i, "per_job": per, "mode": "same-writer"}
 
 
 def replay(scenario, scratch):
